@@ -457,7 +457,10 @@ IdObsChecks(o, id) ==
     Chk("C16", "json_form", o.json = JsonOf(id)),
     Chk("C16", "debug_form", o.debug = DebugOf(id)),
     Chk("C16", "display_form", o.display = DisplayOf(id)),
-    Chk("C16", "json_round_trip", o.back = <<id>>)>>
+    Chk("C16", "json_round_trip", o.back = <<id>>),
+    Chk("C16", "json_round_trip_other_entry_points", o.back_value = <<id>> /\ o.back_reader = <<id>> /\ o.back_slice = <<id>>),
+    \* as the key of a JSON object the id is the same string
+    Chk("C16", "map_key_form", o.key_back /\ o.key_doc = <<123>> \o JsonOf(id) \o <<58, 49, 125>>)>>
 
 \* content of a JSON document that is a plain string literal without escapes: "...."
 PlainJsonString(cs) ==
@@ -475,7 +478,10 @@ NodeIdChecks(e) ==
             LET s == PlainJsonString(e.text) IN
             IF s = <<>> THEN <<>>     \* not a plain string literal: outside this specification (only C03 applies)
             ELSE LET P == FromStr(s[1]) IN
-                 <<Chk("C16", "deserialise_accepts_exactly_64_hex", e.ok = P.ok)>>
+                 <<Chk("C16", "deserialise_accepts_exactly_64_hex", e.ok = P.ok),
+                   Chk("C16", "deserialise_same_through_every_entry_point",
+                       (e.via_reader # <<>>) = P.ok /\ (e.via_value # <<>> => (e.via_value[1] # <<>>) = P.ok)
+                       /\ (P.ok => e.via_reader = <<P.bytes>> /\ e.via_value = <<<<P.bytes>>>>))>>
                  \o When(e.ok /\ P.ok, IdObsChecks(e.id[1], P.bytes)))
 
 KeyChecks(e) ==
